@@ -198,6 +198,8 @@ class Module(object):
         from . import normalize
         self.normalize_log = normalize.inline_new_helpers(self.tree, name)
         self.normalize_log += normalize.unroll_reflective_loops(self.tree)
+        self.normalize_log += normalize.strip_passthrough_wrappers(self.tree, name)
+        self.wrapped = getattr(self.tree, "_wrapped", {})  # id(expr node) -> pass-through wrapper it was handed to
         self.funcs = {}
         self.classes = {}
         self.imports = {}  # local name -> (module short name or None, original name)
